@@ -232,15 +232,17 @@ mod protected {
                     let mut arr = HeapByteArray::<LENGTH>::gen_locked()
                         .expect("couldn't create locked bytes");
                     let mut idx: usize = 0;
-                    let size_hint = seq.size_hint().unwrap_or(0);
-                    if size_hint != LENGTH {
-                        Err(Error::invalid_length(size_hint, &stringify!(LENGTH)))
-                    } else {
-                        while let Some(elem) = seq.next_element()? {
+                    // the size hint is unreliable (absent for JSON): count elements
+                    while let Some(elem) = seq.next_element()? {
+                        if idx < LENGTH {
                             arr[idx] = elem;
-                            idx += 1;
                         }
+                        idx += 1;
+                    }
 
+                    if idx != LENGTH {
+                        Err(Error::invalid_length(idx, &stringify!(LENGTH)))
+                    } else {
                         Ok(arr)
                     }
                 }
